@@ -3,7 +3,8 @@
 import json, os, shutil, sys
 d, prop, i, det = sys.argv[1:5]
 comment = sys.argv[5] if len(sys.argv) > 5 else ""
-out = f"/verif/seeded/{prop}-{i}"
+oi = sys.argv[6] if len(sys.argv) > 6 else i  # index under which the seed is filed
+out = f"/verif/seeded/{prop}-{oi}"
 os.makedirs(out, exist_ok=True)
 shutil.copy(f"{d}/patch{i}.diff", f"{out}/patch.diff")
 shutil.copy(f"{d}/demo{i}_test.go", f"{out}/demo_test.go")
@@ -14,7 +15,7 @@ meta = {
     "origin": "independent sub-agent given only the property text and a scratch worktree of /repo (nothing from /verif)",
     "needs_to_manifest": note.strip(),
     "confirmed_by": "tools/confirm_seed.sh: existing suite passes with the patch; demo test fails with the patch and passes on the unmodified tree (scratch worktree, removed afterwards)",
-    "check_run": f"tools/seedtest.sh {prop} seeded/{prop}-{i}/patch.diff quick (scratch worktree via VERIF_REPO)",
+    "check_run": f"tools/seedtest.sh {prop} seeded/{prop}-{oi}/patch.diff quick (scratch worktree via VERIF_REPO)",
     "detected_by": det,
     "comment": comment,
 }
